@@ -412,6 +412,16 @@ func checkC19(r *core.Run) {
 			mk("keyed literal with exported field "+f, "var v "+T+"\nfunc _() { _ = v."+f+" }\nvar _ = "+T+"{"+f+": nil}", true)
 		}
 	}
+	// type inference (Go 1.18+): a generic function can name the unexported constant type through a type parameter
+	for _, g := range []struct{ key, imps, body string }{
+		{"safehtml.ScriptFromConstant|generic-type-inference", "\"github.com/google/safehtml\"", "func conv[T ~string, R any](f func(T) R, s string) R { return f(T(s)) }\nvar _ = conv(safehtml.ScriptFromConstant, s)"},
+		{"template.MakeTrustedTemplate|generic-type-inference", "\"github.com/google/safehtml/template\"", "func conv[T ~string, R any](f func(T) R, s string) R { return f(T(s)) }\nvar _ = conv(template.MakeTrustedTemplate, s)"},
+		{"template.(*Template).Parse|generic-type-inference-method-value", "\"github.com/google/safehtml/template\"", "func conv[T ~string, R any](f func(T) (R, error), s string) (R, error) { return f(T(s)) }\nvar _, _ = conv(template.New(\"x\").Parse, s)"},
+		{"safehtml.TrustedResourceURLFormatFromConstant|generic-type-inference", "\"github.com/google/safehtml\"", "func conv[T ~string, A, R any](f func(T, A) (R, error), s string) (R, error) { var a A; return f(T(s), a) }\nvar _, _ = conv(safehtml.TrustedResourceURLFormatFromConstant, s)"},
+	} {
+		src := fmt.Sprintf("package c\n\nimport (\n\t%s\n)\n\nvar s = \"x\"\n\n%s\n", g.imps, g.body)
+		clients = append(clients, c19Client{name: g.key, src: src, mustFail: true, what: "passing a run-time string through a generic function whose type parameter is inferred as the unexported constant type", key: g.key})
+	}
 	// conversions between trusted types: T2(valueOfT1) must not compile for distinct T1, T2
 	for _, f1 := range tnames {
 		for _, f2 := range tnames {
@@ -438,6 +448,8 @@ func checkC19(r *core.Run) {
 		case c.mustFail && res[i].compiled && strings.HasPrefix(c.key, "conversion "):
 			parts := strings.SplitN(strings.TrimPrefix(c.key, "conversion "), "|", 2)
 			r.Witness("trusted-type-conversion", parts[0], parts[1], c.what+": the client program compiles (the two struct types have identical underlying types)\n"+c.src, map[string]string{"Source": c.src, "Expect": "must-not-compile"})
+		case c.mustFail && res[i].compiled && strings.Contains(c.key, "|generic-type-inference"):
+			r.Witness("non-constant-accepted", "generic-type-inference", c.key, c.what+": the client program compiles\n"+c.src, map[string]string{"Source": c.src, "Expect": "must-not-compile"})
 		case c.mustFail && res[i].compiled:
 			r.Witness("non-constant-accepted", "", c.key, c.what+": the client program compiles\n"+c.src, map[string]string{"Source": c.src, "Expect": "must-not-compile"})
 		case !c.mustFail && !res[i].compiled:
